@@ -172,6 +172,7 @@ type Process struct {
 	flowNodeMapping    *FlowNodeMapping
 	flowWaitGroup      sync.WaitGroup
 	complete           sync.RWMutex
+	monitorOnce        sync.Once
 	eventConsumersLock sync.RWMutex
 	eventConsumers     []event.IConsumer
 	subTracer          tracing.ITracer
@@ -606,10 +607,17 @@ func (p *Process) StartWith(ctx context.Context, element schema.FlowNodeInterfac
 		// before the start event is triggered, otherwise the start event's
 		// flow trace can be broadcast before the monitor listens and the
 		// instance is never reported complete.
-		sender := p.tracer.RegisterSender()
-		monitor := p.ceaseFlowMonitor(p.subTracer)
+		//
+		// There is one monitor per instance, however many start events are
+		// triggered: it waits for all of them. A second monitor would block on
+		// the completion lock held by the first one while its own, never
+		// drained, subscription stalls the tracer and with it the instance.
+		p.monitorOnce.Do(func() {
+			sender := p.tracer.RegisterSender()
+			monitor := p.ceaseFlowMonitor(p.subTracer)
+			go monitor(ctx, sender)
+		})
 		eventNode.Trigger(ctx)
-		go monitor(ctx, sender)
 		p.tracer.Send(InstantiationTrace{InstanceId: p.id})
 
 	case *throwEvent:
